@@ -65,6 +65,10 @@ def project_future(line):
 def project_iter(line):
     """property-level part of an iterator script answer: the values / panics per step; cumulative pull counts (#n) and the
     event trace {...} are implementation-level (exact look-ahead) - the laziness bound itself is a direct check"""
+    if _re.search(r'panic\(-?\d+\)', line):
+        # a USER CALLBACK panicked (callbacks panic with their numeric code): when it does, relative to the look-ahead, is
+        # implementation-level - C12/C20 speak about callbacks that return
+        return 'callback-panic'
     return _re.sub(r'#\d+', '', _re.sub(r'\{[^{}]*\}', '', line))
 
 # the thorough sizes below finish in 5-30 s on 16 cores; the thorough tier multiplies them (a few minutes per check)
